@@ -1,0 +1,7 @@
+//go:build !verif
+// +build !verif
+
+package ggql
+
+// verifYield is a no-op unless built with the verif tag.
+func verifYield(string) {}
